@@ -23,6 +23,8 @@ def server_stubs(pipe=True):
      ("github.com/bokysan/socketace/v2/internal/streams/dns.NewNetConnectionServerCommunicator", "vpNewNetConnectionServerCommunicator"),
      ("crypto/sha256.New", "vpSha256New"), ("golang.org/x/crypto/pbkdf2.Key", "vpPbkdf2Key"), ("github.com/xtaci/kcp-go/v5.NewAESBlockCrypt", "vpNewAESBlockCrypt"),
      ("(net/http.Header).Write", "vpHeaderWrite"),
+     ("github.com/xtaci/kcp-go/v5.ServeConn", "vpKcpServeConn"), ("(*github.com/xtaci/kcp-go/v5.Listener).Accept", "vpKcpAccept"),
+     ("(*github.com/xtaci/kcp-go/v5.Listener).Close", "vpKcpClose"), ("(*github.com/xtaci/kcp-go/v5.Listener).Addr", "vpKcpAddr"),
     ]
     if pipe:
         t.append(("github.com/bokysan/socketace/v2/internal/streams.PipeData", "vpPipeData"))
